@@ -83,3 +83,45 @@ def log_pow(ctx, x, a):
 def sqrt_sq(ctx, x):
     m = ctx.m
     return ctx.hint(ctx.eq(m.sqrt(x * x), m.abs(x)), "sqrt(x^2)=|x|")
+
+
+# --- appended for C18/C19 ------------------------------------------------------------------
+def pow_root(ctx, x, a):
+    """(x^a)^(1/a) = x for x > 0, a != 0"""
+    if ctx.mode == "conc":
+        return True
+    m = ctx.m
+    return ctx.hint(ctx.Implies(ctx.And(ctx.gt(x, 0), ctx.ne(a, 0)), ctx.eq(m.pow(m.pow(x, a), 1 / a), x)),
+                    "(x^a)^(1/a)=x, x>0, a!=0")
+
+
+def pow_unroot(ctx, x, a):
+    """(x^(1/a))^a = x for x > 0, a != 0"""
+    if ctx.mode == "conc":
+        return True
+    m = ctx.m
+    return ctx.hint(ctx.Implies(ctx.And(ctx.gt(x, 0), ctx.ne(a, 0)), ctx.eq(m.pow(m.pow(x, 1 / a), a), x)),
+                    "(x^(1/a))^a=x, x>0, a!=0")
+
+
+def pow_vs_one(ctx, x, a):
+    """position of x^a relative to 1 (x > 0): same side as x for a > 0, opposite side for a < 0"""
+    if ctx.mode == "conc":
+        return True
+    m = ctx.m
+    p = m.pow(x, a)
+    return ctx.hint(ctx.And(
+        ctx.Implies(ctx.And(ctx.gt(x, 1), ctx.gt(a, 0)), ctx.gt(p, 1)),
+        ctx.Implies(ctx.And(ctx.gt(x, 1), ctx.lt(a, 0)), ctx.And(ctx.gt(p, 0), ctx.lt(p, 1))),
+        ctx.Implies(ctx.And(ctx.gt(x, 0), ctx.lt(x, 1), ctx.gt(a, 0)), ctx.And(ctx.gt(p, 0), ctx.lt(p, 1))),
+        ctx.Implies(ctx.And(ctx.gt(x, 0), ctx.lt(x, 1), ctx.lt(a, 0)), ctx.gt(p, 1)),
+        ctx.Implies(ctx.eq(x, 1), ctx.eq(p, 1))), "x^a vs 1 by sign of a and side of x, x>0")
+
+
+def exp_log(ctx, x):
+    """exp(log x) = x for x > 0 ; log(exp x) = x"""
+    if ctx.mode == "conc":
+        return True
+    m = ctx.m
+    return ctx.hint(ctx.And(ctx.Implies(ctx.gt(x, 0), ctx.eq(m.exp(m.log(x)), x)), ctx.eq(m.log(m.exp(x)), x)),
+                    "exp(log x)=x (x>0), log(exp x)=x")
